@@ -111,6 +111,12 @@ CHECKS = {
     design="5/C11",
     note="Trusted: Lean kernel; minifiber's reading of Fiber.intersection(style=leader-follower) and its inert Metrics/Traffic/Compute/Format stand-ins; non-interference of observer statements and payload/argument agreement rest on execution over sampled specifications and inputs. Known findings: leader not first factor (payloads swapped), unbound position variable with partitioned index math, eager trace before the lookup that binds the fiber.",
     technique="Lean 4 proofs of the metrics-mode rewrites (partial) + differential execution metrics-mode vs plain-mode vs dense oracle"),
+ "C12": dict(
+    category="proof",
+    text="Lean theorem C12.traceOK_sound over an abstract machine of the Metrics/Traffic API (beginCollect/endCollect, trace registrations with consumable flag, consumeTrace, file names <prefix>-<rank>-<type>.csv produced at endCollect, filterTrace consuming two files and producing a third, traffic/sequencer models consuming files, intersector models created/fed/queried): if the checker TraceOK accepts a program (events inside loops only test the state; the machine accepts the program with every loop body run once) then the machine accepts EVERY execution - each loop any number of times, zero included - and ends in the same state. TraceOK is evaluated in Lean on the event structure it extracts from the tree the real compiler built, for the accelerator specifications of the corpus and generated G7 specifications under several hash seeds; in addition each Einsum's section opens and closes collection exactly once.",
+    design="5/C12",
+    note="Trusted: Lean kernel; the machine as my reading of the Metrics/Traffic contract (file naming, consumable registrations); the Lean event extractor HF.stmtItems (executable, no theorem); the registration and consumption views of the bindings inside the compiler are not modelled - the property is decided per compiled program (validator), the quantifier over bindings is sampled.",
+    technique="Lean 4 proof of validator soundness (abstract API machine, all loop iteration counts) + evaluation of the validator on the real compiler's trees"),
 }
 
 NOT_YET = {}
